@@ -24,7 +24,7 @@ pub const INFO: PropInfo = PropInfo {
         "configurations the model itself rejects (two files with one route, unsupported or missing extension, non-UTF-8 text file, a name that is not a valid route segment) are expected to panic at start-up and are discarded, not counted",
         "read_dir order only permutes registration order (which by C01 must not matter) and never enters the trace",
     ],
-    expected_probes: &["c19.file_served", "c19.index_at_directory_path", "c19.omitted_extension", "c19.traversal_refused", "c19.outside_file_refused", "c19.mutation_before_request", "c19.added_later_refused", "c19.head", "c19.rejected_config_panicked", "c19.dotted_directory_name", "c19.empty_file", "c19.two_directories_mounted", "c19.same_path_size_mtime_other_bytes"],
+    expected_probes: &["c19.file_served", "c19.index_at_directory_path", "c19.omitted_extension", "c19.traversal_refused", "c19.outside_file_refused", "c19.mutation_before_request", "c19.added_later_refused", "c19.head", "c19.rejected_config_panicked", "c19.dotted_directory_name", "c19.empty_file", "c19.two_directories_mounted", "c19.same_path_size_mtime_other_bytes", "c19.mounted_through_a_symlink_or_dotdot"],
 };
 
 #[derive(Clone, Debug, Serialize, Deserialize)]
@@ -61,6 +61,11 @@ pub struct Scenario {
     /// a second directory mounted in the same application: same relative paths and sizes, other bytes
     #[serde(default)]
     pub second: Option<Second>,
+    /// how the directory is named when it is mounted: 0 by its real path, 1 through a symbolic link that sits two levels
+    /// deeper than its target, 2 through a symbolic link one level higher, 3 by a path with a `..` component
+    /// (state of the file system at start-up; the files served must be the same)
+    #[serde(default)]
+    pub mount_via: u8,
 }
 #[derive(Clone, Debug, Serialize, Deserialize)]
 pub struct Second {
@@ -216,7 +221,7 @@ pub fn generate(_cfg: &RunCfg, _out: &mut Outcome) -> Scenario {
         let path = if path.is_empty() { "/".to_string() } else { path };
         reqs.push(Req { method: method.into(), path, kind: kind.into(), mutate_before });
     }
-    Scenario { files, outside, mount, omit, reqs, second }
+    Scenario { files, outside, mount, omit, reqs, second, mount_via: t::weighted(&[6, 1, 1, 1]) as u8 }
 }
 
 pub fn run(cfg: &RunCfg, direct: Option<&serde_json::Value>) -> Outcome {
@@ -371,7 +376,31 @@ fn execute(sc: &Scenario, out: &mut Outcome) {
     let expected = model(sc);
 
     // ---- mount (start-up)
-    let dir_lit = leak(root.to_str().unwrap());
+    let named: PathBuf = match sc.mount_via {
+        1 => {
+            let d = base.join("l1").join("l2");
+            let _ = std::fs::create_dir_all(&d);
+            let _ = std::os::unix::fs::symlink(&root, d.join("site"));
+            d.join("site")
+        }
+        2 => {
+            // target two levels down, the link directly under the base
+            let deep = base.join("r1").join("r2");
+            let _ = std::fs::create_dir_all(&deep);
+            let _ = std::fs::rename(&root, deep.join("www"));
+            let _ = std::os::unix::fs::symlink(deep.join("www"), &root);
+            root.clone()
+        }
+        3 => {
+            let _ = std::fs::create_dir_all(base.join("work"));
+            base.join("work").join("..").join("www")
+        }
+        _ => root.clone(),
+    };
+    if sc.mount_via != 0 {
+        out.probe("c19.mounted_through_a_symlink_or_dotdot");
+    }
+    let dir_lit = leak(named.to_str().unwrap());
     let mount_lit = leak(&sc.mount);
     let omit: Vec<&'static str> = sc.omit.iter().map(|s| leak(s)).collect();
     let built = std::panic::catch_unwind(std::panic::AssertUnwindSafe(|| {
